@@ -26,8 +26,9 @@ ACC = effects.ACCESSORS
 
 
 def sizeof_t(t):
+    """size_of::<T>() of the accessor's own element type parameter T (not of some other type)"""
     t = deep_strip(t)
-    return t[0] == 'call' and canon(t[1]).split("::")[-1] == "size_of"
+    return t[0] == 'call' and canon(t[1]).split("::")[-1] == "size_of" and len(t) > 3 and tuple(t[3]) == ("T",)
 
 
 def self_field(t, name):
